@@ -13,27 +13,29 @@ NL == 1000          \* the newline that "\n" decodes to (kept apart from a raw L
 IsWS(c) == c = SP \/ c = HT
 
 (* parser state: stash (unescaped bytes of the current logical line), mark (the last  *)
-(* chunk ended in a LF: the line may or may not be folded), pend (0, BS or LF: what   *)
+(* chunk ended in a LF: the line may or may not be folded), pend (0, BS, LF or EE: what *)
 (* esccpy was in the middle of), drop (inside an over-long line), lines (handed on)   *)
 P0 == [stash |-> <<>>, mark |-> FALSE, pend |-> 0, drop |-> FALSE, lines |-> <<>>]
 
 (* ---- esccpy(piece) with the carried state; cap = free space in the stash ---- *)
 Dec(c) == IF c = LN THEN NL ELSE c
-RECURSIVE Esc(_, _, _, _)
-(* returns [out, pend, ovf] *)
-Esc(piece, i, out, cap) ==
-  IF Len(out) >= cap /\ out # <<>> THEN [out |-> <<>>, pend |-> 0, ovf |-> TRUE]
-  ELSE IF i > Len(piece) THEN [out |-> out, pend |-> 0, ovf |-> FALSE]
-  ELSE LET c == piece[i] IN
-    IF c = CR THEN Esc(piece, i + 1, out, cap)
-    ELSE IF c = LF THEN (IF i = Len(piece) THEN [out |-> out, pend |-> LF, ovf |-> Len(out) >= cap /\ out # <<>>] ELSE Esc(piece, i + 2, out, cap))
-    ELSE IF c = BS THEN (IF i = Len(piece) THEN [out |-> out, pend |-> BS, ovf |-> Len(out) >= cap /\ out # <<>>] ELSE Esc(piece, i + 2, Append(out, Dec(piece[i + 1])), cap))
-    ELSE Esc(piece, i + 1, Append(out, c), cap)
+EE == 2000          \* pend: an escape is open AND a line break has been seen (a fold splits the escape)
+RECURSIVE Esc(_, _, _, _, _)
+(* esccpy is a state machine over st in {0, BS, LF, EE}; returns [out, pend, ovf] *)
+Esc(piece, i, st, out, cap) ==
+  IF i > Len(piece) THEN [out |-> out, pend |-> st, ovf |-> FALSE]
+  ELSE LET c == piece[i]
+           st1 == IF st = LF THEN 0 ELSE IF st = EE THEN BS ELSE st      \* after the white space a fold may bring
+       IN IF (st = LF \/ st = EE) /\ IsWS(c) THEN Esc(piece, i + 1, st1, out, cap)
+          ELSE IF c = CR THEN Esc(piece, i + 1, st1, out, cap)
+          ELSE IF c = LF THEN Esc(piece, i + 1, IF st1 = BS THEN EE ELSE LF, out, cap)
+          ELSE IF st1 # BS /\ c = BS THEN Esc(piece, i + 1, BS, out, cap)
+          ELSE LET o2 == Append(out, IF st1 = BS THEN Dec(c) ELSE c) IN
+               IF Len(o2) >= cap THEN [out |-> <<>>, pend |-> 0, ovf |-> TRUE]
+               ELSE Esc(piece, i + 1, 0, o2, cap)
 EscCpy(piece, pend, cap) ==
   IF Len(piece) = 0 THEN [out |-> <<>>, pend |-> pend, ovf |-> FALSE]
-  ELSE IF pend = LF THEN Esc(piece, IF IsWS(piece[1]) THEN 2 ELSE 1, <<>>, cap)
-  ELSE IF pend = BS THEN Esc(piece, 2, <<Dec(piece[1])>>, cap)
-  ELSE Esc(piece, 1, <<>>, cap)
+  ELSE Esc(piece, 1, pend, <<>>, cap)
 
 (* ---- chopping ---- *)
 RECURSIVE FindLF(_, _)
